@@ -34,6 +34,11 @@ def _guarded(fn, item):
                         br[k] = v
                         sent[k] = v
             r["__entered__"] = sorted(entered)
+            muts = set()
+            for it, _w in engine._CACHE.values():
+                muts.update(it.mutations)
+                it.mutations.clear()
+            r["__mutations__"] = sorted(muts, key=repr)
             r["__branches__"] = [(k[0], k[1], k[2], v) for k, v in br.items()]
         return r
     except Unsupported as e:
@@ -112,6 +117,7 @@ class Ctx(object):
         self._pm = None
         self.undecided = 0
         self._setup_seen = {}
+        self.mutations = set()
 
     @property
     def pm(self):
@@ -157,6 +163,7 @@ class Ctx(object):
                 continue
             if isinstance(r, dict) and "__entered__" in r:
                 self.ev.interpreted.update(r.pop("__entered__"))
+                self.mutations.update(tuple(m) for m in r.pop("__mutations__", ()))
                 for f, ln, col, v in r.pop("__branches__", ()):
                     self.ev.branches[(f, ln, col)] = self.ev.branches.get((f, ln, col), 0) | v
             out.append((it, r))
@@ -215,6 +222,9 @@ def main(argv):
         mod.run(ctx)
         from . import state
 
+        from . import purity
+
+        purity.apply(ctx)  # in-place changes to the arguments of the API calls the obligations made
         state.apply(ctx)  # cross-call state rules (memo aliasing, stale derived attributes) for the functions this check analysed
         ctx.ev.check_floors()
         try:
